@@ -133,7 +133,7 @@ def run(rep, rng, tier):
         ratio = rng.choice([1, 2, 4, 8])
         lead0 = rng.random() < 0.35
         # periods whose minimum forces refinement (T_min/20 < dt) or not
-        base = dt * rng.choice([1.0, 2.0, 2.5, 5.0, 10.0, 20.0, 40.0, 80.0])
+        base = dt * rng.choice([1.0, 1.2, 2.0, 2.5, 3.0, 5.0, 6.0, 7.0, 9.0, 10.0, 13.0, 15.0, 20.0, 40.0, 80.0])   # dt/target_dt integer and not
         periods = sorted([base] + [base * rng.uniform(1, 30) for _ in range(rng.randint(0, 3))])
         if lead0:
             periods = [0.0] + periods
@@ -199,6 +199,10 @@ def run(rep, rng, tier):
             m = int(round(dt / dti))
         else:
             vi, m = rec, 1
+        from fractions import Fraction as F
+        if any((P < (dt / m) * 6) != (F(P) < F(dt) / m * 6) for P in periods):
+            fragile += 1       # T vs 6*dt decided differently by floats and by exact arithmetic at the refined step
+            continue
         rows = guarded(sdof.response_series, vi, dt / m, np.array(periods), 0.05)
         raw = guarded(sdof.pseudo_response_spectra, rec, dt, np.array(periods), 0.05)
         if isinstance(rows, ImplError) or isinstance(raw, ImplError):
